@@ -517,6 +517,20 @@ impl Formatter {
     result
   }
 
+  // Characters that reach the tree only through a backslash escape are written back escaped.
+  fn escape_mechdown_text(text: &str, specials: &[char]) -> String {
+    let mut out = String::with_capacity(text.len());
+    for c in text.chars() {
+      match c {
+        '\n' => out.push_str("\\n"),
+        '\r' => out.push_str("\\r"),
+        c if c == '\\' || specials.contains(&c) => { out.push('\\'); out.push(c); }
+        c => out.push(c),
+      }
+    }
+    out
+  }
+
   pub fn inline_paragraph(&mut self, node: &Paragraph) -> String {
     let mut src = "".to_string();
     for el in node.elements.iter() {
@@ -622,7 +636,8 @@ impl Formatter {
         if self.html {
           format!("<span class=\"mech-text\">{}</span>", n.to_string())
         } else {
-          n.to_string()
+          // Text kept verbatim by error recovery (a raw comment line) was never unescaped.
+          if n.kind == TokenKind::Text { Self::escape_mechdown_text(&n.to_string(), &['`', '|', '~', '*', '_']) } else { n.to_string() }
         }
       }
       ParagraphElement::FootnoteReference(n) => self.footnote_reference(n),
@@ -670,7 +685,7 @@ impl Formatter {
         if self.html {
           format!("<code class=\"mech-inline-code\">{}</code>", n.to_string().trim())
         } else {
-          format!("`{}`", n.to_string())
+          format!("`{}`", Self::escape_mechdown_text(&n.to_string(), &['`']))
         }
       },
       ParagraphElement::InlineMechCode(code) => {
